@@ -76,3 +76,84 @@ def gfd_string_default(self, ps, context):
     """the text case: a string default of a non-enum property (an enum-typed default is turned into a member access by name, numbers and booleans
     are rendered by str() of a number / bool: not text)"""
     return isinstance(ps.default, str) and ps.name is None
+
+
+# ---- C04: every query / header / cookie parameter of the operation gets exactly one entry in the emitted dict, keyed by its wire name -----------
+from pyvc.spec import call_count, call_arg  # noqa: E402
+from pyopenapi_gen.core.utils import NameSanitizer  # noqa: E402
+from pyopenapi_gen.core.writers.code_writer import python_string_literal  # noqa: E402
+
+
+def _returns_str(result):
+    """python_string_literal / sanitize_method_name return str (their own contracts: C15 / C20)"""
+    return isinstance(result, str)
+
+
+def _one_entry(label, qual, target, pvar, types):
+    cc = contract(f"{qual}#{label}", props=["C04"], region_for_target=target, region_body_only=True, types=types, abstract_unsupported=True, track_calls=True,
+                  functional_opaque=["python_string_literal", "NameSanitizer.sanitize_method_name", "sanitize_method_name"],
+                  nothrow_calls=["python_string_literal", "write_line", "sanitize_method_name", "get"],
+                  dependency_post={"python_string_literal": _returns_str, "sanitize_method_name": _returns_str})
+
+    entry_written = None
+    return cc, entry_written
+
+
+_cq, _fq = _one_entry("query-entry", U + "._write_query_params", "(i, p)", "p", {"i": "int", "p": "dict"})
+
+
+@_cq.requires(typing=True)
+def q_types(p):
+    return isinstance(p["name"], str) and isinstance(p["original_name"], str)
+
+
+@_cq.ensures(only_exit="end", note="C04: one dict entry per query parameter, keyed by the wire name literal, valued by the serialised argument of that parameter")
+def q_entry(p):
+    if call_count("CodeWriter.write_line") != 1:
+        return False
+    line = call_arg("CodeWriter.write_line", 0, 1)  # argument 0 is the receiver
+    lit = python_string_literal(p["original_name"])
+    var = NameSanitizer.sanitize_method_name(p["name"])
+    if not (isinstance(line, str) and isinstance(lit, str) and isinstance(var, str)):
+        return False
+    return str(lit) in str(line) and ("DataclassSerializer.serialize(" + str(var) + ")") in str(line)
+
+
+_ch, _fh = _one_entry("header-entry", U + "._write_header_params", "p_info", "p_info", {"p_info": "dict"})
+
+
+@_ch.requires(typing=True)
+def h_types(p_info):
+    return isinstance(p_info["name"], str) and isinstance(p_info["original_name"], str)
+
+
+@_ch.ensures(only_exit="end", note="C04: one dict entry per header parameter")
+def h_entry(p_info):
+    if call_count("CodeWriter.write_line") != 1:
+        return False
+    line = call_arg("CodeWriter.write_line", 0, 1)  # argument 0 is the receiver
+    lit = python_string_literal(p_info["original_name"])
+    var = NameSanitizer.sanitize_method_name(p_info["name"])
+    if not (isinstance(line, str) and isinstance(lit, str) and isinstance(var, str)):
+        return False
+    return str(lit) in str(line) and ("DataclassSerializer.serialize(" + str(var) + ")") in str(line)
+
+
+_cc, _fc = _one_entry("cookie-entry", U + ".generate_url_and_args", "p_info", "p_info", {"p_info": "dict"})
+
+
+@_cc.requires(typing=True)
+def c_types(p_info):
+    return isinstance(p_info["name"], str) and isinstance(p_info["original_name"], str)
+
+
+@_cc.ensures(only_exit="end", note="C04: one dict entry per cookie parameter")
+def c_entry(p_info):
+    if call_count("CodeWriter.write_line") != 1:
+        return False
+    line = call_arg("CodeWriter.write_line", 0, 1)  # argument 0 is the receiver
+    lit = python_string_literal(p_info["original_name"])
+    var = NameSanitizer.sanitize_method_name(p_info["name"])
+    if not (isinstance(line, str) and isinstance(lit, str) and isinstance(var, str)):
+        return False
+    return str(lit) in str(line) and ("DataclassSerializer.serialize(" + str(var) + ")") in str(line)
